@@ -233,6 +233,24 @@ func c15Check(c C15Case, cx *h.Ctx) *h.Failure {
 	if hasEmptyMember(model) || len(wantSegs) > 4 {
 		nontrivial = true
 	}
+	// boundary and point on surface are functions of the XY point set: the same geometry carrying Z, M or ZM payload
+	// (every position its own values, so coincident end points differ in Z/M) has the same boundary in XY and
+	// the same point on surface (the coordinate type of the boundary itself is not part of the property)
+	if model.CT == 0 {
+		for lct := 1; lct <= 3; lct++ {
+			lg := c16TagWith(forceCT(model, lct), lct != 2).ToGeom()
+			lb := lg.Boundary()
+			if d := gm.Diff(bm, gm.FromGeom(lb.Force2D())); d != "" {
+				return h.Failf("boundary/zm-dependent", "Boundary() of the same XY geometry with %s payload differs in XY: %s\nXY boundary %s\nwith payload %s%s", gm.CTName(lct), d, clip(bm.String(), 300), clip(lb.AsText(), 300), desc())
+			}
+			if lp := lg.PointOnSurface(); lp.AsText() != pos.AsText() {
+				return h.Failf("pos/zm-dependent", "PointOnSurface() of the same XY geometry with %s payload is %s, not %s%s", gm.CTName(lct), lp.AsText(), pos.AsText(), desc())
+			}
+			if lg.Dimension() != g.Dimension() || lg.IsEmpty() != g.IsEmpty() {
+				return h.Failf("boundary/zm-dependent", "Dimension/IsEmpty change with %s payload%s", gm.CTName(lct), desc())
+			}
+		}
+	}
 	if nontrivial {
 		cx.NonTrivial()
 	}
